@@ -433,7 +433,10 @@ fn check_c13_case(case: &PollCase, env: &mut Env) -> Verdict {
         let obs = poll_batch(&mut poller, phc.clone(), batch, &vc);
         let states = file_states.borrow().clone();
         if obs.len() != j - i {
-            v.fail(format!("polls {}..{}: the loop ran {} iterations / sent a different number of messages for {} scripted polls", i, j, obs.len(), j - i));
+            // iterations are told apart by their CLOCK_MONOTONIC_COARSE reading: an implementation
+            // that takes its as-of reading differently cannot be followed by this harness, which is
+            // a limit of the harness, not a verdict on the property
+            v.fail(format!("HARNESS: polls {}..{}: {} iterations could be told apart (by their CLOCK_MONOTONIC_COARSE reading) / messages attributed for {} scripted polls", i, j, obs.len(), j - i));
             break;
         }
         for (k, o) in obs.into_iter().enumerate() {
